@@ -461,7 +461,7 @@ func execC10(e *Env, pp any) {
 		// a write failure is only noticed when something is written: make the
 		// unary handlers that wait for the scheduler answer
 	default:
-		srv.Stop()
+		e.Call("server.stop", srv.Stop)
 		e.Note("fault.server.stop")
 	}
 	if len(inflight) > 0 {
@@ -954,6 +954,9 @@ func genC14(g *rand.Rand, tier string) any {
 	if tier == "thorough" && g.IntN(4) == 0 {
 		p.N = 500 + g.IntN(2000)
 	}
+	if g.IntN(6) == 0 {
+		p.N = 200 + g.IntN(150) // long enough for anything bounded to have reached its bound in the first third
+	}
 	p.Inflight = 1 + g.IntN(32)
 	p.GenSeed = g.Uint64()
 	p.Outcomes = []int{1 + g.IntN(4), g.IntN(3), g.IntN(4), g.IntN(3), g.IntN(3), g.IntN(3), g.IntN(3), g.IntN(2), g.IntN(3), g.IntN(3)}
@@ -1172,6 +1175,7 @@ func execC14(e *Env, pp any) {
 		return c
 	}
 	const prop = "C14"
+	var remembered [][2]int // (RPCs done, elements held) at idle points
 	baseline := -1
 	baseCliCtx, baseSrvCtx := -1, 0
 	sample := func(when string) bool {
@@ -1357,6 +1361,15 @@ func execC14(e *Env, pp any) {
 		if !sample(fmt.Sprintf("after %d RPCs", done)) {
 			return
 		}
+		{
+			// what the two connection objects remember at this idle point: the elements of
+			// every map, slice and channel they own (no field is named)
+			tot := goat.VerifClientContainerTotal(cc)
+			for _, h := range e.W.TrackedObjects("server.handler") {
+				tot += goat.VerifContainerTotal(h)
+			}
+			remembered = append(remembered, [2]int{done, tot})
+		}
 		// forget finished calls (keeps the history's memory bounded)
 		histMu.Lock()
 		for _, r := range recs {
@@ -1370,6 +1383,31 @@ func execC14(e *Env, pp any) {
 		}
 	}
 	e.Notes["rpcs"] += done
+	if p.N >= 150 && len(remembered) >= 3 {
+		// state bounded: over the second and over the last third of a long history the
+		// connections' containers must not both have grown by half an element per RPC
+		at := func(k int) [2]int {
+			best := remembered[0]
+			for _, r := range remembered {
+				if abs(r[0]-k) < abs(best[0]-k) {
+					best = r
+				}
+			}
+			return best
+		}
+		a, b, c := at(p.N/3), at(2*p.N/3), remembered[len(remembered)-1]
+		e.Note("c14.long-history")
+		if b[0] > a[0] && c[0] > b[0] && 2*(b[1]-a[1]) >= b[0]-a[0] && 2*(c[1]-b[1]) >= c[0]-b[0] {
+			e.Violate(prop, "state-grows-with-history", "connection-containers", "with no RPC in flight the client and server connection objects held %d elements in their maps, slices and channels after %d RPCs, %d after %d and %d after %d: what they remember grows with the length of the history", a[1], a[0], b[1], b[0], c[1], c[0])
+		}
+	}
+}
+
+func abs(x int) int {
+	if x < 0 {
+		return -x
+	}
+	return x
 }
 
 func init() {
